@@ -42,8 +42,20 @@ def streams(seed, tier):
             else:
                 mut = "set %d %d" % (r.choice([0, 0, 1, 5, 6, 9, 10, r.randrange(0, 1500)]), r.choice([0, 1, 2, 3, 4, 5, 6, 9, 10, 11, 12, 13, 127, 128, 255, r.randrange(256)]))
             add("mutfix", ["mutfix %s | %s" % (mut, frame_spec(r))])
-        elif k < 0.93:
+        elif k < 0.90:
             add("raw", ["read " + hexbytes(r, r.choice([0, 1, 4, 5, 6, 9, 14, 25, r.randrange(0, 1473)]))])
+        elif k < 0.95:
+            # a data frame with a correct CRC whose last datagram is cut inside (or right after) its header:
+            # class byte of a micro / small / large header followed by fewer bytes than that header needs
+            ndg = r.choice([1, 1, 2])
+            body = "0a" + "".join("%02x" % r.randrange(256) for _ in range(4)) + "%02x" % (ndg | (128 if r.random() < 0.5 else 0))
+            if ndg == 2:
+                body += "02" + "".join("%02x" % r.randrange(256) for _ in range(5)) + "aabb"     # a complete micro datagram first
+            cls = r.choice([0x00, 0x80, 0x80, 0xC0, 0xC0])
+            first = cls | r.randrange(64)
+            k = r.choice([1, 2, 5, 6, 6, 7, 8, 9, 10, 12, 13, 14])
+            body += "%02x" % first + "".join("%02x" % r.choice([0, 1, 2, r.randrange(256)]) for _ in range(k - 1))
+            add("readfix", ["readfix " + body])
         else:
             body = "%02x" % r.choice([0, 1, 2, 3, 4, 5, 6, 9, 10, 11, 12, 13, 255])
             body += hexbytes(r, r.choice([0, 4, 5, 9, 10, 19, 20, 21, 1466, 1467, r.randrange(0, 64)])).replace("-", "")
